@@ -520,17 +520,17 @@ def mon_c18_loss(sc, obs):
         if st["error"] is not None or st["after"] is None:
             return None
         if st["op"][0] == 18:
-            # uncertainty loss (coefficient 1): nodes with a contradictory row contribute nothing, the others their total width;
-            # non-negative whenever no counted row is crossed (alpha = 1: always)
+            # uncertainty loss (coefficient 1): nodes with a contradictory row contribute nothing, the others their total width,
+            # a row crossed inside the tolerance (alpha < 1) counting as zero width: non-negative in every state
             exp = F(0)
             for i in range(tr.n):
                 rs = list(st["after"][i].values())
                 if any(crossed(sx.q(tr.kb[i][4][0]), l, u) for l, u in rs):
                     continue
-                exp += sum((u - l for l, u in rs), F(0))
+                exp += sum((max(u - l, F(0)) for l, u in rs), F(0))
             vals = [v for i in range(tr.n) for b in st["after"][i].values() for v in b]
             tol = F(0) if all(v.denominator <= 1024 for v in vals) else F(1, 2 ** 14)
-            if abs(st["ret"] - exp) > tol or (all(sx.q(o[4][0]) == 1 for o in tr.kb) and st["ret"] < 0):
+            if abs(st["ret"] - exp) > tol or st["ret"] < 0:
                 return (f"op #{st['n']}: uncertainty loss = total width of the rows of every formula without a contradictory row = {exp} (>= 0)", f"{st['ret']}", None)
             continue
         if st["op"][0] != 14:
@@ -599,6 +599,30 @@ def c18_fol_part(ctx):
                 labs.append([i, d])
         sc[5] = [op for op in sc[5] if op[0] != 11] + [[5, -1, 30], [17, labs]]
     run_fol(ctx, "K6 first-order engine (+supervised loss per formula against labels in random order)", scs2, ["fol_c18_sup"])
+    # uncertainty loss with alpha < 1 on predicates and negations: facts crossed INSIDE one classical region are tolerated
+    # (no contradiction) and count as zero width, so the loss stays non-negative (D17)
+    rng3 = ctx.rng("c18unc")
+    scs3, meta3 = gen_fol.gen_k40(rng3, 100 if ctx.quick else 1500)
+    tolerated = 0
+    for sc in scs3:
+        kb = sc[1]
+        plain = [i for i, o in enumerate(kb) if o[0] in (0, 1)]
+        for i in plain:
+            kb[i][4] = [rng3.choice([F(3, 4), F(3, 4), F(7, 8)])] + list(kb[i][4][1:])
+        ops = list(sc[5])
+        for _ in range(rng3.choice([1, 2, 3])):
+            i = rng3.choice(plain)
+            al = kb[i][4][0]
+            grid = [F(k, 16) for k in range(17)]
+            side = [x for x in grid if x >= al] if rng3.random() < 0.5 else [x for x in grid if x <= 1 - al]
+            u, l = sorted((rng3.choice(side), rng3.choice(side)))
+            tolerated += l > u
+            pos = rng3.randrange(len(ops) + 1)
+            ops[pos:pos] = [[8, i, [[gen_fol.rnd_gnd(rng3, kb[i][3], 3), [l, u]]]], [18], [14], [9]]
+        sc[5] = ops + [[18]]
+    run_fol(ctx, "K6 first-order engine, alpha < 1 on predicates and negations, facts crossed inside a classical region (+uncertainty loss)", scs3, ["fol_c18_loss", "fol_c17"])
+    ctx.cov["uncertainty_tolerated_crossed_facts"] = int(tolerated)
+    ctx.corpus(["d17_uncertainty_negative.py"])
     m, impl, lines = run_fol(ctx, "K6 first-order engine (+contradiction loss after model-level calls)", scs, ["fol_c18_loss", "fol_c17"])
     pos = 0
     for sc, o in zip(scs, impl[0]):
